@@ -8,6 +8,7 @@ import orswot_abs
 
 CONFIGS = ['prod']
 EXPLANATION = (
+    'A-SEM: the five keyspace-actor handlers interpreted against every answer of storage (the C02 handler summaries re-evaluated): an operation is written exactly when the set\'s gate accepts it, whatever its source. '
     'T2: every constructor that packs a caller-supplied Duration refuses seconds above 2^32 - 1 before the packer is reached (the order of the packed words is the order of the times only for seconds the field can hold). '
     'SEM (primary): the per-key transfer functions of insert_with_source / delete_with_source over the 7 abstract inputs (key absent / live / tombstoned, s'
     'tamp older / equal / newer) equal the last-write-wins register (insert wins a tie; returned flag = state changed; version gate can refuse); VSEM: the '
@@ -145,6 +146,11 @@ def check(ctx):
     # T2: "later time = larger word" holds only for seconds the seconds field can hold: the constructor refuses the rest (= C10.E7)
     import c10
     c10.check_constructor_range(ctx, facts, rule='C04.T2')
+    # A: "the greatest timestamp wins" is observed through the node's store: the keyspace actor writes an operation exactly when the set's
+    # gate accepts it and folds the set for exactly what was written (= C02.SEM, the handler summaries, re-evaluated under C04; only the
+    # summary — where it declines C02's structural clauses decide).  Round 7, C04g: the gate skipped for repair-sourced operations.
+    import handlers_abs
+    handlers_abs.check_handlers(ctx, facts, 'C04.A-SEM')
     roots = [facts.body(OS + 'insert_with_source'), facts.body(OS + 'delete_with_source')]
     # the per-source stamp update the mutators gate on (found by role: the NodeVersions predicate steering their early return)
     stamp = None
